@@ -93,3 +93,45 @@ def rand_scenes(seed, n, size, tag='R'):
         rng = random.Random(f'{tag}:{seed}:{size}:{i}')
         out.append(rand_scene(rng, size, name=f'{tag}-{size}-{seed}-{i}'))
     return out
+
+
+def anomaly_scene(rng, name=''):
+    """ accepted frames carrying the anomalies documented as warnings only: second/third hits without the lower ones,
+    several first (or VV) hits of one measurement at different heights, type 0 with a height, typed hits with NaN,
+    types above 3, unequal sampling between ceilometers """
+    d = rand_scene(rng, 'tiny', name=name)
+    rows = d['rows']
+    kind = rng.choice(['missing_lower', 'dup_first', 'type0_height', 'typed_nan', 'high_types', 'mixed'])
+    out = []
+    seen = set()
+    for r in rows:
+        c, t, h, k = r
+        x = rng.random()
+        if kind in ('missing_lower', 'mixed') and k == 1 and x < 0.4 and any(q[0] == c and q[1] == t and q[3] == 2 for q in rows):
+            continue                                     # the type-1 hit of this measurement is missing
+        if kind in ('dup_first', 'mixed') and k == 2 and x < 0.5:
+            k = 1                                        # two first hits at different heights in one measurement
+        if kind in ('type0_height', 'mixed') and k == 0 and x < 0.5:
+            h = rng.choice([150, 900, 2000])
+        if kind in ('typed_nan', 'mixed') and k == 1 and x < 0.15 and not any(q[0] == c and q[1] == t and q[3] != 1 for q in rows):
+            h = None
+        if kind in ('high_types', 'mixed') and k >= 2 and x < 0.5:
+            k = k + rng.choice([2, 3])
+        key = (c, t, h, k)
+        if key in seen:
+            continue
+        seen.add(key)
+        out.append([c, t, h, k])
+    # the screening refuses a measurement holding both a type 0 and another type: keep the frame acceptable
+    bad = {(c, t) for c, t, h, k in out if k == 0} & {(c, t) for c, t, h, k in out if k != 0}
+    out = [r for r in out if (r[0], r[1]) not in bad or r[3] == 0]
+    if not out:
+        out = rows
+    d['rows'] = out
+    d['family'] = 'R-anomaly'
+    d['name'] = name
+    return d
+
+
+def anomaly_scenes(seed, n, tag='A'):
+    return [anomaly_scene(random.Random(f'{tag}:{seed}:{i}'), name=f'{tag}-anomaly-{seed}-{i}') for i in range(n)]
